@@ -22,7 +22,7 @@ THOROUGH_S = 420
 BATCH = 6
 RULE = ('one evaluation = one seeded run: a sequence of 10-80 calls f(*args, **kwargs) with args/kwargs drawn from {1, 1.0, True, None, '
         '"a", "x", 2, (1,)} (arity <= 3, keyword names a/x/b) and clock steps, through one memoizing decorator (Cache / FanoutCache / '
-        'Index / DjangoCache .memoize, memoize_stampede) x typed x ignore x name x expire, over 1-3 functions whose (module, qualified name) pairs share a module, a name or a dotted spelling and which are decorated by one decorator object or by one memoize() call each; some calls make the function raise (must propagate, never be stored); every result carries the function and arguments that produced it and is compared with the direct '
+        'Index / DjangoCache .memoize, memoize_stampede) x typed x ignore x name x expire, over 1-3 functions whose (module, qualified name) pairs share a module, a name or a dotted spelling and which are decorated by one decorator object or by one memoize() call each; some calls make the function raise (must propagate, never be stored), some make it return None or another falsy value (a result like any other); every result carries the function and arguments that produced it and is compared with the direct '
         'call, the execution counter with the expiry rule, and expire=0 must leave the cache empty; stampede runs use 2-3 concurrent '
         'callers under the seeded scheduler with a slow function on the virtual clock; non-trivial = at least one cache hit; '
         'distinct = SHA-256 of the case / event log')
